@@ -305,6 +305,7 @@ Fixpoint populated (v : kval) : bool :=
    the carrier" (excluded by [has_carrier] in the theorems, never produced by the harness) *)
 Inductive kerr :=
 | KE (e : ser_err)
+| KE_ValueOverflow      (* BuiltinSerializationErrorKind::ValueOverflow (not among Cql.v's leaf kinds) *)
 | KE_IllTyped.
 
 (* the buffer after the call, and the error if the call failed *)
@@ -386,13 +387,28 @@ Definition is_some {A} (o : option A) : bool := match o with Some _ => true | No
 Definition uses_builder (b : base) : bool :=
   match b with BCqlDecimal | BCqlDecimalB | BBigDecimal => true | _ => false end.
 
-(* a leaf impl: exact_type_check!, then the bytes *)
+(* The two conversions that can fail (serialize/value.rs l.141-156, l.189-198):
+   chrono::NaiveTime -> CqlTime fails on a leap second (more than 86399999999999 ns since
+   midnight; the payload CTime z carries those ns), bigdecimal's i64 exponent -> i32 scale fails
+   outside i32 (the payload CDecimal scale raw carries the i64 exponent). *)
+Definition value_overflow (b : base) (x : cval) : bool :=
+  match b, x with
+  | BChronoTime, CTime z => (time_max <? z)%Z
+  | BBigDecimal, CDecimal scale _ => negb (i32_ok scale)
+  | _, _ => false
+  end.
+
+(* a leaf impl: exact_type_check!, then the conversion (BigDecimal: AFTER into_value_builder, so
+   the -3 placeholder is already in the buffer when ValueOverflow is returned), then the bytes *)
 Definition ser_leaf (b : base) (ws : bool) (t : ctype) (x : cval) : writer :=
   if negb (native_in t (ser_base_types b)) then w_fail (KE SE_MismatchedType)
   else if negb (base_payload b x) then w_fail KE_IllTyped
   else match leaf_bytes x with
        | None => w_fail KE_IllTyped
-       | Some c => if uses_builder b then w_builder ws (w_append c) else w_set_value ws c
+       | Some c =>
+           if uses_builder b
+           then w_builder ws (if value_overflow b x then w_fail KE_ValueOverflow else w_append c)
+           else if value_overflow b x then w_fail KE_ValueOverflow else w_set_value ws c
        end.
 
 Definition ill : writer := w_fail KE_IllTyped.
@@ -642,7 +658,8 @@ Definition row_check (ks : list carrier) (cols : list ctype) : rowck :=
   if (List.length ks =? List.length cols)%nat then row_cols 0 ks cols else RK_WrongColumnCount.
 
 (* deserialize/result.rs TypedRowIterator::new(raw): `R::type_check(raw.specs())?` comes first; an
-   iterator - the only way to R::deserialize - exists only when the check passed.  [rows] is the
+   iterator exists only when the check passed (TypedRowStream in scylla/src/client/pager.rs has its own
+   call of the same check and is not modelled).  [rows] is the
    number of rows the raw iterator holds: what the typed iterator may hand to deserialize. *)
 Definition typed_rows (ks : list carrier) (cols : list ctype) (rows : N) : result rowck N :=
   match row_check ks cols with
@@ -822,7 +839,7 @@ Definition vec_elem_ok (k : carrier) (e : ctype) : bool :=
               tuple field): values.md documents them for bind values only - the protocol defines
               "not set" for a [value] and not for the [bytes] items inside one; the code writes the
               -2 marker there, a server reads a negative [bytes] length as null.  No documentation
-              supports this one: it is conceded, not specified (observation O2 of docs/C17.md);
+              supports this one: it is conceded, not specified (observation O3 of docs/C17.md);
      r_vec    the vector element rule [vec_elem_ok] dropped: NOT conceded - this is finding F2b. *)
 Record relax := { r_tuple : bool; r_set : bool; r_unset : bool; r_vec : bool }.
 Definition docs_only : relax := {| r_tuple := false; r_set := false; r_unset := false; r_vec := false |}.
@@ -965,21 +982,21 @@ Definition is_typeck (e : kerr) : bool :=
    entry of a name counts, as in the HashMap of serialize_udt).  No ranges, no ASCII / UTF-8
    validity: only what a type check can see. *)
 Definition is_cempty := Cql.is_cempty.
-Fixpoint dyn_fits (t : ctype) (v : cval) {struct t} : bool :=
+Fixpoint dyn_fits_gen (strict : bool) (t : ctype) (v : cval) {struct t} : bool :=
   match v with
   | CEmpty => supports_empty t
   | CList l | CSet l | CVector l =>
       match t with
-      | TList e | TSet e => forallb (dyn_fits e) l
+      | TList e | TSet e => forallb (dyn_fits_gen strict e) l
       (* a vector has exactly `dim` elements, and an element of a fixed-width type cannot be Empty *)
       | TVector e dim =>
-          (N.of_nat (List.length l) =? dim) && negb (is_some (type_size e) && existsb is_cempty l) &&
-          forallb (dyn_fits e) l
+          (N.of_nat (List.length l) =? dim) && negb (strict && is_some (type_size e) && existsb is_cempty l) &&
+          forallb (dyn_fits_gen strict e) l
       | _ => false
       end
   | CMap l =>
       match t with
-      | TMap k e => forallb (fun kv => dyn_fits k (fst kv) && dyn_fits e (snd kv)) l
+      | TMap k e => forallb (fun kv => dyn_fits_gen strict k (fst kv) && dyn_fits_gen strict e (snd kv)) l
       | _ => false
       end
   | CUdt ks nm fields =>
@@ -992,7 +1009,7 @@ Fixpoint dyn_fits (t : ctype) (v : cval) {struct t} : bool :=
              | (fname, ft) :: r =>
                  match udt_field_value fname st with
                  | None => true
-                 | Some x => dyn_fits ft x
+                 | Some x => dyn_fits_gen strict ft x
                  end && go r (remove_name fname st)
              end) fts fields
       | _ => false
@@ -1004,7 +1021,7 @@ Fixpoint dyn_fits (t : ctype) (v : cval) {struct t} : bool :=
           (fix go (ts : list ctype) (l : list (option cval)) {struct ts} : bool :=
              match ts, l with
              | et :: ts', ox :: l' =>
-                 match ox with None => true | Some x => dyn_fits et x end && go ts' l'
+                 match ox with None => true | Some x => dyn_fits_gen strict et x end && go ts' l'
              | _, _ => true
              end) ts l
       | _ => false
@@ -1018,49 +1035,14 @@ Fixpoint dyn_fits (t : ctype) (v : cval) {struct t} : bool :=
       end
   end.
 
-(* the known class on the dynamic path (F2b / F2): a CqlValue::Empty directly inside a vector whose
-   elements are packed without length - accepted, the vector comes out short.  Same traversal as
-   [dyn_fits]. *)
-Fixpoint dyn_known (t : ctype) (v : cval) {struct t} : bool :=
-  match v with
-  | CList l | CSet l | CVector l =>
-      match t with
-      | TList e | TSet e => existsb (dyn_known e) l
-      | TVector e _ => (is_some (type_size e) && existsb is_cempty l) || existsb (dyn_known e) l
-      | _ => false
-      end
-  | CMap l =>
-      match t with
-      | TMap k e => existsb (fun kv => dyn_known k (fst kv) || dyn_known e (snd kv)) l
-      | _ => false
-      end
-  | CUdt ks nm fields =>
-      match t with
-      | TUdt ks' nm' fts =>
-          (fix go (fts : list (name * ctype)) (st : list (name * option cval)) {struct fts} : bool :=
-             match fts with
-             | [] => false
-             | (fname, ft) :: r =>
-                 match udt_field_value fname st with
-                 | None => false
-                 | Some x => dyn_known ft x
-                 end || go r (remove_name fname st)
-             end) fts fields
-      | _ => false
-      end
-  | CTuple l =>
-      match t with
-      | TTuple ts =>
-          (fix go (ts : list ctype) (l : list (option cval)) {struct ts} : bool :=
-             match ts, l with
-             | et :: ts', ox :: l' =>
-                 match ox with None => false | Some x => dyn_known et x end || go ts' l'
-             | _, _ => false
-             end) ts l
-      | _ => false
-      end
-  | _ => false
-  end.
+(* strict = with the rule "no Empty element in a vector of fixed-width elements" (the
+   specification); lax = without it (what the code implements: the rule is finding F2b) *)
+Definition dyn_fits : ctype -> cval -> bool := dyn_fits_gen true.
+Definition dyn_lax : ctype -> cval -> bool := dyn_fits_gen false.
+
+(* the known class on the dynamic path (F2b / F2): the ONLY thing wrong with the value is an Empty
+   element of a vector whose elements are packed without length *)
+Definition dyn_known (t : ctype) (v : cval) : bool := dyn_lax t v && negb (dyn_fits t v).
 
 (* ---- values of all carriers ---------------------------------------------------------------- *)
 (* "The value v of carrier k, as it will be written, is a value of the column type t": what the
@@ -1076,39 +1058,39 @@ Fixpoint hole_val (fixed : bool) (v : kval) : bool :=
   | _ => false
   end.
 
-Fixpoint val_fits (k : carrier) (t : ctype) (v : kval) {struct k} : bool :=
+Fixpoint val_fits_gen (strict : bool) (k : carrier) (t : ctype) (v : kval) {struct k} : bool :=
   match k with
   | KBase BUnset => match v with VUnset => true | _ => false end
-  | KBase b => match v with VLeaf x => native_in t (ser_base_types b) && base_payload b x | _ => false end
-  | KCqlValue => match v with VLeaf x => dyn_fits t x | _ => false end
-  | KOption k' => match v with VNull => true | VWrap x => val_fits k' t x | _ => false end
-  | KMaybeUnset k' => match v with VUnset => true | VWrap x => val_fits k' t x | _ => false end
+  | KBase b => match v with VLeaf x => native_in t (ser_base_types b) && base_payload b x && negb (value_overflow b x) | _ => false end
+  | KCqlValue => match v with VLeaf x => dyn_fits_gen strict t x | _ => false end
+  | KOption k' => match v with VNull => true | VWrap x => val_fits_gen strict k' t x | _ => false end
+  | KMaybeUnset k' => match v with VUnset => true | VWrap x => val_fits_gen strict k' t x | _ => false end
   | KMaybeEmpty k' =>
-      supports_empty t && match v with VEmpty => true | VWrap x => val_fits k' t x | _ => false end
+      supports_empty t && match v with VEmpty => true | VWrap x => val_fits_gen strict k' t x | _ => false end
   | KRef k' | KBox k' | KArc k' | KCow k' | KSecret08 k' | KSecretBox10 k' =>
-      match v with VWrap x => val_fits k' t x | _ => false end
+      match v with VWrap x => val_fits_gen strict k' t x | _ => false end
   | KVec k' | KSlice k' =>
       match v with
       | VSeq l =>
           match t with
-          | TList e | TSet e => forallb (val_fits k' e) l
+          | TList e | TSet e => forallb (val_fits_gen strict k' e) l
           | TVector e dim =>
               (N.of_nat (List.length l) =? dim) &&
-              forallb (fun x => negb (hole_val (is_some (type_size e)) x) && val_fits k' e x) l
+              forallb (fun x => negb (strict && hole_val (is_some (type_size e)) x) && val_fits_gen strict k' e x) l
           | _ => false
           end
       | _ => false
       end
   | KHashSet k' | KBTreeSet k' =>
       match v with
-      | VSeq l => match t with TList e | TSet e => forallb (val_fits k' e) l | _ => false end
+      | VSeq l => match t with TList e | TSet e => forallb (val_fits_gen strict k' e) l | _ => false end
       | _ => false
       end
   | KHashMap a b | KBTreeMap a b =>
       match v with
       | VMap l =>
           match t with
-          | TMap tk tv => forallb (fun kv => val_fits a tk (fst kv) && val_fits b tv (snd kv)) l
+          | TMap tk tv => forallb (fun kv => val_fits_gen strict a tk (fst kv) && val_fits_gen strict b tv (snd kv)) l
           | _ => false
           end
       | _ => false
@@ -1121,7 +1103,7 @@ Fixpoint val_fits (k : carrier) (t : ctype) (v : kval) {struct k} : bool :=
               (List.length ks <=? List.length ts)%nat && (List.length ks =? List.length vs)%nat &&
               (fix go (ks : list carrier) (ts : list ctype) (vs : list kval) {struct ks} : bool :=
                  match ks, ts, vs with
-                 | k1 :: ks', t1 :: ts', v1 :: vs' => val_fits k1 t1 v1 && go ks' ts' vs'
+                 | k1 :: ks', t1 :: ts', v1 :: vs' => val_fits_gen strict k1 t1 v1 && go ks' ts' vs'
                  | _, _, _ => true
                  end) ks ts vs
           | _ => false
@@ -1131,33 +1113,74 @@ Fixpoint val_fits (k : carrier) (t : ctype) (v : kval) {struct k} : bool :=
   | KSecretString | KSecretSlice _ | KListIter _ | KVecIter _ | KMapIter _ _ | KUdtIter | KFrameSlice => false
   end.
 
-(* the known class at the value level: somewhere an element without a representation sits in a
-   vector (typed carriers), or [dyn_known] holds of a CqlValue *)
-Fixpoint val_known (k : carrier) (t : ctype) (v : kval) {struct k} : bool :=
+Definition val_fits : carrier -> ctype -> kval -> bool := val_fits_gen true.
+Definition val_lax : carrier -> ctype -> kval -> bool := val_fits_gen false.
+
+(* the known class at the value level: the value fits once the vector element rule is dropped, and
+   only then - nothing else is wrong with it *)
+Definition val_known (k : carrier) (t : ctype) (v : kval) : bool := val_lax k t v && negb (val_fits k t v).
+
+(* a vector position (typed or inside a CqlValue) whose value has the wrong number of elements:
+   the cause of VectorLen *)
+Fixpoint dyn_len_mis (t : ctype) (v : cval) {struct t} : bool :=
+  match v with
+  | CList l | CSet l | CVector l =>
+      match t with
+      | TList e | TSet e => existsb (dyn_len_mis e) l
+      | TVector e dim => negb (N.of_nat (List.length l) =? dim) || existsb (dyn_len_mis e) l
+      | _ => false
+      end
+  | CMap l =>
+      match t with
+      | TMap k e => existsb (fun kv => dyn_len_mis k (fst kv) || dyn_len_mis e (snd kv)) l
+      | _ => false
+      end
+  | CUdt _ _ fields =>
+      match t with
+      | TUdt _ _ fts =>
+          existsb (fun ft => existsb (fun f => bytes_eqb (fst ft) (fst f) &&
+                                               match snd f with Some x => dyn_len_mis (snd ft) x | None => false end) fields) fts
+      | _ => false
+      end
+  | CTuple l =>
+      match t with
+      | TTuple ts =>
+          (fix go (ts : list ctype) (l : list (option cval)) {struct ts} : bool :=
+             match ts, l with
+             | et :: ts', ox :: l' =>
+                 match ox with None => false | Some x => dyn_len_mis et x end || go ts' l'
+             | _, _ => false
+             end) ts l
+      | _ => false
+      end
+  | _ => false
+  end.
+
+Fixpoint val_len_mis (k : carrier) (t : ctype) (v : kval) {struct k} : bool :=
   match k with
-  | KCqlValue => match v with VLeaf x => dyn_known t x | _ => false end
+  | KCqlValue => match v with VLeaf x => dyn_len_mis t x | _ => false end
   | KOption k' | KMaybeUnset k' | KMaybeEmpty k' | KRef k' | KBox k' | KArc k' | KCow k' | KSecret08 k'
-  | KSecretBox10 k' => match v with VWrap x => val_known k' t x | _ => false end
+  | KSecretBox10 k' => match v with VWrap x => val_len_mis k' t x | _ => false end
   | KVec k' | KSlice k' =>
       match v with
       | VSeq l =>
           match t with
-          | TList e | TSet e => existsb (val_known k' e) l
-          | TVector e _ => existsb (fun x => hole_val (is_some (type_size e)) x || val_known k' e x) l
+          | TList e | TSet e => existsb (val_len_mis k' e) l
+          | TVector e dim => negb (N.of_nat (List.length l) =? dim) || existsb (val_len_mis k' e) l
           | _ => false
           end
       | _ => false
       end
   | KHashSet k' | KBTreeSet k' =>
       match v with
-      | VSeq l => match t with TList e | TSet e => existsb (val_known k' e) l | _ => false end
+      | VSeq l => match t with TList e | TSet e => existsb (val_len_mis k' e) l | _ => false end
       | _ => false
       end
   | KHashMap a b | KBTreeMap a b =>
       match v with
       | VMap l =>
           match t with
-          | TMap tk tv => existsb (fun kv => val_known a tk (fst kv) || val_known b tv (snd kv)) l
+          | TMap tk tv => existsb (fun kv => val_len_mis a tk (fst kv) || val_len_mis b tv (snd kv)) l
           | _ => false
           end
       | _ => false
@@ -1169,7 +1192,7 @@ Fixpoint val_known (k : carrier) (t : ctype) (v : kval) {struct k} : bool :=
           | TTuple ts =>
               (fix go (ks : list carrier) (ts : list ctype) (vs : list kval) {struct ks} : bool :=
                  match ks, ts, vs with
-                 | k1 :: ks', t1 :: ts', v1 :: vs' => val_known k1 t1 v1 || go ks' ts' vs'
+                 | k1 :: ks', t1 :: ts', v1 :: vs' => val_len_mis k1 t1 v1 || go ks' ts' vs'
                  | _, _, _ => false
                  end) ks ts vs
           | _ => false
@@ -1179,10 +1202,30 @@ Fixpoint val_known (k : carrier) (t : ctype) (v : kval) {struct k} : bool :=
   | _ => false
   end.
 
-(* the errors by which a misfit is refused: a type-check error, or - checked before the elements -
-   the vector length / element count errors *)
+(* a collection with more than i32::MAX elements somewhere in the value: the cause of
+   TooManyElements (independent of the column type) *)
+Fixpoint cval_big (v : cval) : bool :=
+  match v with
+  | CList l | CSet l | CVector l => (i32_max <? N.of_nat (List.length l)) || existsb cval_big l
+  | CMap l => (i32_max <? N.of_nat (List.length l)) || existsb (fun kv => cval_big (fst kv) || cval_big (snd kv)) l
+  | CTuple l => existsb (fun ox => match ox with Some x => cval_big x | None => false end) l
+  | CUdt _ _ fs => existsb (fun f => match snd f with Some x => cval_big x | None => false end) fs
+  | _ => false
+  end.
+Fixpoint kv_big (v : kval) : bool :=
+  match v with
+  | VLeaf x => cval_big x
+  | VWrap x => kv_big x
+  | VSeq l => (i32_max <? N.of_nat (List.length l)) || existsb kv_big l
+  | VMap l => (i32_max <? N.of_nat (List.length l)) || existsb (fun kv => kv_big (fst kv) || kv_big (snd kv)) l
+  | VTup l => existsb kv_big l
+  | VNull | VUnset | VEmpty => false
+  end.
+
+(* the errors by which a misfit is refused: a type-check error, the vector length error (checked
+   before the elements) or the failed conversion of a leaf value *)
 Definition is_refusal (e : kerr) : bool :=
-  is_typeck e || match e with KE SE_VectorLen | KE SE_TooManyElements => true | _ => false end.
+  is_typeck e || match e with KE SE_VectorLen | KE_ValueOverflow => true | _ => false end.
 
 (* the errors that a value OF the type can still get: sizes beyond the wire format's i32 *)
 Definition is_size_err (e : kerr) : bool :=
